@@ -48,7 +48,28 @@ class Check:
         self.known = load_known(prop)
         self.structural_fail = []       # (name, detail) of failed shape obligations, resolved in finish()
         self.native_witness = None      # failing inputs found by the check's bounded native run, if any
-        self.replay_dir = os.path.join(VERIF, 'replays' if os.environ.get('VERIF_REPO', '/repo') == '/repo' else '.scratch_replays', prop)
+        repo = os.environ.get('VERIF_REPO', '/repo')
+        if repo == '/repo':
+            self.replay_dir = os.path.join(VERIF, 'replays', prop)
+        else:
+            # one directory per scratch copy, so that concurrent runs against different copies do not delete each other's replay
+            # files; directories of copies that no longer exist are removed
+            import hashlib
+            import shutil
+            root = os.path.join(VERIF, '.scratch_replays')
+            tag = hashlib.sha1(os.path.abspath(repo).encode()).hexdigest()[:10]
+            self.replay_dir = os.path.join(root, tag, prop)
+            os.makedirs(self.replay_dir, exist_ok=True)
+            with open(os.path.join(root, tag, '.repo'), 'w') as fh:
+                fh.write(os.path.abspath(repo))
+            for d in os.listdir(root):
+                marker = os.path.join(root, d, '.repo')
+                try:
+                    gone = not os.path.isdir(open(marker).read().strip()) if os.path.exists(marker) else d != tag
+                except OSError:
+                    gone = False
+                if gone and d != tag:
+                    shutil.rmtree(os.path.join(root, d), ignore_errors=True)
         if os.path.isdir(self.replay_dir) and not os.environ.get('VERIF_KEEP_REPLAYS'):
             for f in os.listdir(self.replay_dir):          # replay files describe THIS run only
                 if f.endswith('.json'):
